@@ -561,7 +561,9 @@ class ContentSecurityPolicySourceHost(ParsableBase, Serializable):
         parser.parse_string_until_separator_or_end('value', ' ')
 
         source_host = cls(**parser)
-        if not str(source_host.value):  # for instance ':', which urllib3 parses to an empty URL
+        source_host_text = str(source_host.value)
+        if not source_host_text or convert_url()(source_host_text) != source_host.value:
+            # for instance ':' or '://', which urllib3 reduces to an empty URL or to another URL than its own text
             raise InvalidValue(parser['value'], cls, 'value')
 
         return source_host, parser.parsed_length
